@@ -90,7 +90,7 @@ type ReceiveContext struct {
 	message        any
 	sender         *PID
 	response       chan any
-	responseClosed atomic.Bool
+	responseClosed *atomic.Bool
 	requestID      string
 	requestReplyTo *commands.AsyncReplyTo
 	self           *PID
@@ -159,7 +159,8 @@ func (rctx *ReceiveContext) Response(resp any) {
 	// For Ask-based replies, guard against late responses after the caller timed out.
 	// This prevents pooled response channels from receiving stale replies that could
 	// be consumed by a later Ask call.
-	if !rctx.responseClosed.CompareAndSwap(false, true) {
+	closed := rctx.responseClosed
+	if closed == nil || !closed.CompareAndSwap(false, true) {
 		return
 	}
 	select {
@@ -764,7 +765,7 @@ func newReceiveContext(ctx context.Context, from, to *PID, message any) *Receive
 		response: getResponseChannel(),
 		self:     to,
 	}
-	rc.responseClosed.Store(false)
+	rc.responseClosed = new(atomic.Bool)
 	return rc
 }
 
@@ -788,7 +789,7 @@ func (rctx *ReceiveContext) build(ctx context.Context, from, to *PID, message an
 		return rctx
 	}
 
-	rctx.responseClosed.Store(false)
+	rctx.responseClosed = new(atomic.Bool)
 	rctx.ctx = ctx
 	rctx.response = getResponseChannel()
 	return rctx
@@ -803,6 +804,7 @@ func (rctx *ReceiveContext) reset() {
 	rctx.self = nil
 	rctx.sender = nil
 	rctx.response = nil
+	rctx.responseClosed = nil
 	rctx.err = nil
 	rctx.requestID = ""
 	rctx.requestReplyTo = nil
